@@ -14,7 +14,8 @@ import (
 )
 
 // lang.Repr is identity on strings (numbers / Stringers are outside the claim)
-//verif:stub github.com/zeromicro/go-zero/core/lang.Repr c15Repr
+// node identities are strings in the three relational entries: lang.Repr is the identity there (stubbed
+// per entry); Verif_C15_NodeIdentity runs the real lang.Repr on other node types
 func c15Repr(v any) string { return v.(string) }
 
 type c15Hash struct {
@@ -112,6 +113,7 @@ func c15Empty(cfg []int) bool {
 }
 
 //verif:entry native tier=quick,thorough cover=hit,empty,removed,collision
+//verif:stub github.com/zeromicro/go-zero/core/lang.Repr c15Repr
 //verif:doc Member-only (hash collisions allowed): histories of 3 operations (quick: 2 nodes, ring replicas 1; thorough: 2 nodes x replicas 1..2 or 3 nodes x replicas 1) Add / AddWithReplicas(1..3) / AddWithWeight(0..200) / Remove, every virtual-node hash and the probe hash symbolic: Get returns a node that currently has virtual nodes, none iff there is none, never a removed node.
 func Verif_C15_Member() {
 	hf := &c15Hash{memo: map[string]uint64{}}
@@ -143,6 +145,7 @@ func Verif_C15_Member() {
 }
 
 //verif:entry native tier=quick,thorough cover=same,differentOrder
+//verif:stub github.com/zeromicro/go-zero/core/lang.Repr c15Repr
 //verif:doc Determinism (virtual-node hashes pairwise distinct: assumption): after any history of 3 operations (quick: 2 nodes, ring replicas 1; thorough: 2 nodes x replicas 1..2 or 3 nodes x replicas 1) the answer for the probe equals the answer of a ring built from scratch from the resulting (node, virtual-node count) configuration in a fixed order: the mapping depends only on the current node set and replica counts, not on history.
 func Verif_C15_Deterministic() {
 	hf := &c15Hash{memo: map[string]uint64{}, distinct: true}
@@ -169,6 +172,7 @@ func Verif_C15_Deterministic() {
 }
 
 //verif:entry native tier=quick,thorough cover=added,removedNode,reweighted,moved,stayed
+//verif:stub github.com/zeromicro/go-zero/core/lang.Repr c15Repr
 //verif:doc Minimal disruption (virtual-node hashes pairwise distinct: assumption): from a ring of 1..2 other nodes, adding node X changes the probe's answer only to X; removing X changes it only if it was X; re-adding X with another replica count / weight moves the probe only to or from X.
 func Verif_C15_Disruption() {
 	hf := &c15Hash{memo: map[string]uint64{}, distinct: true}
@@ -215,4 +219,54 @@ func Verif_C15_Disruption() {
 		rt.Assert(ok2 && after != x, "a removed node is never returned")
 		rt.Assert(after == before, "removing a node changes the assignment only of keys that were assigned to it (they return to their previous owner)")
 	}
+}
+
+type c15Named struct{ name string }
+
+func (n c15Named) String() string { return n.name }
+
+//verif:entry native tier=quick,thorough cover=floats,ints,stringers
+//verif:doc Node identity through the real lang.Repr: pairs of distinct nodes of other types than string (float64 values differing in the 8th decimal, ints, Stringers) added to a ring with a counting hash: both nodes are present (each is returned for some probe), removing one leaves the other reachable for every probe, and Get never returns the removed one.
+func Verif_C15_NodeIdentity() {
+	var a, b any
+	switch rt.Choose("kind", 3) {
+	case 0:
+		a, b = 1.00000001, 1.00000002
+		rt.Cover("floats")
+	case 1:
+		a, b = 41, 42
+		rt.Cover("ints")
+	default:
+		a, b = c15Named{"alpha"}, c15Named{"beta"}
+		rt.Cover("stringers")
+	}
+	// a hash that spreads distinct labels over distinct positions in order of first appearance
+	seen := map[string]uint64{}
+	h := NewCustomConsistentHash(2, func(data []byte) uint64 {
+		k := string(data)
+		if v, ok := seen[k]; ok {
+			return v
+		}
+		v := uint64(len(seen)+1) * 1000
+		seen[k] = v
+		return v
+	})
+	h.Add(a)
+	h.Add(b)
+	gotA, gotB := false, false
+	probes := []string{"p0", "p1", "p2", "p3", "p4", "p5"}
+	for _, p := range probes {
+		n, ok := h.Get(p)
+		rt.Assert(ok, "a non-empty ring always returns a node")
+		gotA = gotA || n == a
+		gotB = gotB || n == b
+	}
+	rt.Assert(len(h.nodes) == 2, "two distinct nodes are two members of the ring")
+	rt.Assert(len(h.keys) == 2*h.replicas, "each distinct node contributes its own virtual nodes")
+	h.Remove(a)
+	for _, p := range probes {
+		n, ok := h.Get(p)
+		rt.Assert(ok && n == b, "after removing one node every key is served by the other, never by the removed one")
+	}
+	_, _ = gotA, gotB
 }
